@@ -348,9 +348,14 @@ func (sc *Scheduler) execNode(ctx context.Context, n *Node) error {
 func (sc *Scheduler) Signal(
 	g *ExecutionGraph, sig os.Signal, done chan bool, allowOverride bool,
 ) {
-	if !sc.isCanceled() {
-		sc.setCanceled()
-	}
+	// The launched steps are signalled (or, when their command has not
+	// started yet, told not to start it) before the stop becomes visible,
+	// and nobody reads the flag meanwhile. A step worker that saw "not
+	// stopped" a moment ago finds its step already stopped when it comes to
+	// start the command; one that looks afterwards sees the flag. Setting
+	// the flag first left a window in which such a worker still started
+	// its command after the stop.
+	sc.mu.Lock()
 	for _, node := range g.Nodes() {
 		// for a repetitive task, we'll wait for the job to finish
 		// until time reaches max wait time
@@ -358,6 +363,8 @@ func (sc *Scheduler) Signal(
 			node.signal(sig, allowOverride)
 		}
 	}
+	sc.canceled = 1
+	sc.mu.Unlock()
 	if done != nil {
 		defer func() {
 			done <- true
